@@ -197,8 +197,11 @@ func (r *recvSide) snapshot(source string) map[string]any {
 	filepath.Walk(fd, func(p string, info os.FileInfo, err error) error {
 		if err == nil && !info.IsDir() {
 			rel, _ := filepath.Rel(fd, p)
-			b, _ := os.ReadFile(p)
-			final[rel] = fmt.Sprintf("%x", md5.Sum(b))
+			// (<name>.lck is the transient first half of fileutil.Move; a file that is renamed
+			// between the listing and the read is picked up by the next snapshot)
+			if b, err := os.ReadFile(p); err == nil && !strings.HasSuffix(rel, ".lck") {
+				final[rel] = fmt.Sprintf("%x", md5.Sum(b))
+			}
 		}
 		return nil
 	})
@@ -209,8 +212,9 @@ func (r *recvSide) snapshot(source string) map[string]any {
 			rel, _ := filepath.Rel(sd, p)
 			staged = append(staged, rel)
 			if strings.HasSuffix(rel, ".wait") {
-				b, _ := os.ReadFile(p)
-				held[strings.TrimSuffix(rel, ".wait")] = fmt.Sprintf("%x", md5.Sum(b))
+				if b, err := os.ReadFile(p); err == nil {
+					held[strings.TrimSuffix(rel, ".wait")] = fmt.Sprintf("%x", md5.Sum(b))
+				}
 			}
 		}
 		return nil
